@@ -157,7 +157,21 @@ func GenSvc(rt *rapid.T, idx, namespaces int, poolNames []string) SvcSpec {
 func MutateSvc(rt *rapid.T, s SvcSpec, namespaces int, poolNames []string) SvcSpec {
 	n := s
 	n.Ports = append([]PortSpec(nil), s.Ports...)
-	switch rapid.IntRange(0, 8).Draw(rt, "mutK") {
+	switch rapid.IntRange(0, 9).Draw(rt, "mutK") {
+	case 9:
+		// one port moves to the other protocol and keeps its number
+		i := rapid.IntRange(0, len(n.Ports)-1).Draw(rt, "flipPort")
+		if n.Ports[i].Proto == "TCP" {
+			n.Ports[i].Proto = "UDP"
+		} else {
+			n.Ports[i].Proto = "TCP"
+		}
+		for j := range n.Ports {
+			if j != i && n.Ports[j] == n.Ports[i] { // Kubernetes rejects duplicate (protocol, port) pairs
+				n.Ports = GenPorts(rt)
+				break
+			}
+		}
 	case 0:
 		n.Ports = GenPorts(rt)
 	case 1:
